@@ -48,7 +48,8 @@ RULE = ("one case = one logical setting for one key: a type hint from the gramma
         "for one value), the environment variable holds the JSON list or the bare single value, parse_object / the documents "
         "the list; 15% value counts the nargs pattern refuses, values outside the choices, texts the callable refuses; every "
         "channel incl. both environment forms, PREFIX_CFG and default_config_files, yaml + one other mode. History family: the "
-        "dataclass group is also given as one command-line value (--opt=JSON). "
+        "dataclass group is also given as one command-line value (--opt=JSON). Six directed Dict[str, str] settings of enable_path "
+        "options whose entries name readable files of the working directory. "
         "distinct = distinct (type, value, key, prefix, spelling, modes) resp. (settings, earlier call); non-trivial = >= 8 "
         "channel runs")
 TRUSTED = [
@@ -644,6 +645,11 @@ def generate(rng, tier):
         cases.append(gen_plain(rng, list(MODES) if tier == "thorough" and rng.random() < 0.3 else ["yaml", rng.choice(MODES[1:])]))
     for _ in range(35 if tier == "quick" else 150):
         cases.append(gen_sub(rng, list(MODES) if tier == "thorough" and rng.random() < 0.3 else ["yaml", rng.choice(MODES[1:])]))
+    # entries of an enable_path option whose text names a readable file of the runner's working directory (appended last:
+    # the cases above do not depend on them)
+    for fn in sorted(FILE_NAMES):
+        for key in (["labels"], ["g", "k"]):
+            cases.append(make_case(rng, ["dict", False, ["str"]], {"d": [["doc", fn], ["n", "x"]]}, key=key, modes=["yaml", rng.choice(MODES[1:])]))
     return cases
 
 
